@@ -153,6 +153,8 @@ fn script_for(term: &mut Term, frame: &[u8], plan: &Value) -> (Vec<Vec<u8>>, Str
         }
     };
     let empty = json!({});
+    // a status information in front of the final packet of the exchange (reservation, reversals, end of day)
+    let status_first = plan.get("status_first").and_then(|b| b.as_bool()).unwrap_or(false);
     match cf {
         (0x06, 0x00) => {
             // Registration
@@ -178,7 +180,7 @@ fn script_for(term: &mut Term, frame: &[u8], plan: &Value) -> (Vec<Vec<u8>>, Str
             let req = p::Reservation::zvt_deserialize(frame).ok().map(|x| x.0);
             match o.as_str() {
                 "abort" => {
-                    if plan.get("status_first").and_then(|b| b.as_bool()).unwrap_or(false) {
+                    if status_first {
                         // a declined payment: a status information that already carries a receipt number, then the abort
                         let r = term.next_receipt;
                         term.next_receipt = if r >= 9999 { 1 } else { r + 1 };
@@ -251,7 +253,12 @@ fn script_for(term: &mut Term, frame: &[u8], plan: &Value) -> (Vec<Vec<u8>>, Str
                 }
             } else {
                 match o.as_str() {
-                    "abort" => frames.push(p::PartialReversalAbort { error: code, receipt_no: None }.zvt_serialize()),
+                    "abort" => {
+                        if status_first {
+                            frames.push(status_from(plan.get("status").unwrap_or(&empty), Some(receipt as usize)).zvt_serialize());
+                        }
+                        frames.push(p::PartialReversalAbort { error: code, receipt_no: None }.zvt_serialize())
+                    }
                     "ok_nostatus" => {
                         term.ledger.retain(|(r, _, _)| *r != receipt);
                         frames.push(completion());
@@ -271,6 +278,9 @@ fn script_for(term: &mut Term, frame: &[u8], plan: &Value) -> (Vec<Vec<u8>>, Str
         (0x06, 0x25) => {
             let req = p::PreAuthReversal::zvt_deserialize(frame).ok().map(|x| x.0);
             let receipt = req.as_ref().and_then(|r| r.receipt_no).unwrap_or(0) as u64;
+            if status_first {
+                frames.push(status_from(&empty, None).zvt_serialize());
+            }
             if o == "abort" {
                 frames.push(p::PartialReversalAbort { error: code, receipt_no: None }.zvt_serialize());
             } else {
@@ -279,6 +289,9 @@ fn script_for(term: &mut Term, frame: &[u8], plan: &Value) -> (Vec<Vec<u8>>, Str
             }
         }
         (0x06, 0x50) => {
+            if status_first {
+                frames.push(status_from(&empty, None).zvt_serialize());
+            }
             if o == "abort" {
                 frames.push(p::PartialReversalAbort { error: code, receipt_no: None }.zvt_serialize());
             } else {
